@@ -3,6 +3,7 @@ import Driver.Sub
 import Driver.Types
 import Driver.Ext
 import Driver.C20
+import Driver.Conv
 import MdspanVerif.Model.ValidB
 open Mdspan Drv
 
@@ -15,6 +16,8 @@ def step (line : String) : String :=
   | "extconv" :: t :: u :: rest => extconvLine t u rest
   | "exteq" :: t :: u :: rest => exteqLine t u rest
   | "c20" :: kind :: t :: rest => c20Line kind t rest
+  | "conv" :: kind :: _ :: rest => convLine kind rest
+  | "mapeq" :: kind :: _ :: rest => mapeqLine kind rest
   | "dot" :: rest =>
     let ss := (parseList ((getKey rest "str").getD "-")).map Int.toNat
     let is := (parseList ((getKey rest "idx").getD "-")).map Int.toNat
